@@ -29,5 +29,24 @@ for name, groups in (("resolve: as recorded", o["groups"]), ("resolve: id. moved
     tf.write_text(json.dumps(resolve_trace(groups)))
     r = vlib.run_tlc("Trace_Resolve", "Trace_Resolve.cfg", env={"TRACE_FILE": str(tf)}); tf.unlink()
     out[name] = "rejected (" + ", ".join(sorted(set(re.findall(r'"(C\d\d\.\w+)"', r.out))) or ["DRIFT"]) + ")" if ('"FAIL"' in r.out or '"DRIFT"' in r.out) else "accepted"
+# Eyecite sessions (markup flow): the merge must keep every non-reference citation; cleaning never lengthens
+import random
+sess = vlib.impl_run("drv_extract", "run_markup_sessions", {"items": [{"markup": "<p>See <i>Foo</i> v. <i>Bar</i>, 1 U.S. 1 (1999). Later, <i>Bar</i> at 12 and 2 F.2d 2.</p>",
+                                                                        "steps": ["html", "all_whitespace"], "tok": "aho", "upto": 2}]})
+s_good = copy.deepcopy(sess)
+s_bad1 = copy.deepcopy(sess)
+mi = next(i for i, e in enumerate(s_bad1[0]["events"]) if e["ev"] == "merge")
+ki = next(i for i, c in enumerate(s_bad1[0]["events"][mi]["cites"]) if c["kind"] != "ref")
+del s_bad1[0]["events"][mi]["cites"][ki]
+s_bad2 = copy.deepcopy(sess); s_bad2[0]["events"][0]["n_after"] = s_bad2[0]["n"] + 1
+s_bad3 = copy.deepcopy(sess)
+ri = next(i for i, e in enumerate(s_bad3[0]["events"]) if e["ev"] == "resolve")
+s_bad3[0]["events"][ri]["groups"] = [[2, 1]]
+for name, tr in (("session: as recorded", s_good), ("session: merge lost a non-reference citation", s_bad1),
+                 ("session: cleaning lengthened the text", s_bad2), ("session: resolution group out of order", s_bad3)):
+    tf = vlib.WORK / f"bd-{os.getpid()}-{time.time_ns()}.json"; vlib.WORK.mkdir(exist_ok=True)
+    tf.write_text(json.dumps(tr))
+    r = vlib.run_tlc("Trace_Eyecite", "Trace_Eyecite.cfg", env={"TRACE_FILE": str(tf)}); tf.unlink()
+    out[name] = "accepted" if '<<"DONE", 1>>' in r.out else "rejected (session not consumed: stops at event %s)" % max([int(x) for x in re.findall(r'<<"AT", 1, (\d+)>>', r.out)] or [0])
 print(json.dumps(out, indent=1))
 json.dump(out, open("/verif/selftest/binding_demo.json", "w"), indent=1)
